@@ -39,6 +39,9 @@ func Gen(r *hx.Rand, engine string, malformed bool) Case {
 		k := 0
 		for b := 0; b < nb; b++ {
 			n := r.Range(1, 5)
+			if engine == "v2" && r.Chance(1, 4) {
+				n = r.Range(5, 8)
+			}
 			if malformed {
 				n = r.Range(1, 2)
 			}
@@ -51,6 +54,7 @@ func Gen(r *hx.Rand, engine string, malformed bool) Case {
 		}
 		ss.EOF = r.Bool()
 		ss.SlowAck = r.Bool()
+		ss.DeferAck = r.Bool() // half of the sources keep acks queued (several parked at once)
 		c.Sources = append(c.Sources, ss)
 	}
 	procErrs := r.Chance(1, 3)
@@ -193,6 +197,80 @@ func GenDirected(r *hx.Rand, engine string) Case {
 	}
 	c.Ctl = &CtlSpec{Kind: "cancel", At: 1 << 20} // fires when the run has gone idle
 	return c
+}
+
+// GenFilterChain draws one case of the DIRECTED v2 family "filter, then transform": batches
+// of 5..8 records pass two processors on the way to the destination(s), the first filters
+// some records of every batch, the second returns a new record for each one left
+// (Batch.SetRecords on a batch that already holds filtered records).
+func GenFilterChain(r *hx.Rand) Case {
+	c := Case{Engine: "v2", GoMaxProcs: []int{1, 2, 4, 16}[r.Intn(4)], Collide: r.Chance(1, 3)}
+	nsrc := r.Range(1, 2)
+	var all [][2]int
+	var filt [][2]int
+	for s := 0; s < nsrc; s++ {
+		ss := SrcSpec{EOF: r.Bool(), SlowAck: r.Bool()}
+		k := 0
+		for b, nb := 0, r.Range(1, 2); b < nb; b++ {
+			n := r.Range(5, 8)
+			ss.Batches = append(ss.Batches, n)
+			mask := r.Intn(1<<n-1) + 1 // at least one record filtered
+			for i := 0; i < n; i++ {
+				all = append(all, [2]int{s, k})
+				if mask>>i&1 == 1 && r.Chance(2, 3) || i == mask%n {
+					filt = append(filt, [2]int{s, k})
+				}
+				k++
+			}
+		}
+		c.Sources = append(c.Sources, ss)
+	}
+	c.Dests = make([]DstSpec, r.Range(1, 2))
+	first := ProcSpec{Filter: filt, Workers: 1}
+	second := ProcSpec{Transform: true, Workers: 1}
+	switch r.Intn(3) {
+	case 0:
+		c.PipeProcs = []ProcSpec{first, second}
+	case 1:
+		for s := range c.Sources {
+			c.Sources[s].Procs = []ProcSpec{first}
+		}
+		c.PipeProcs = []ProcSpec{second}
+	default:
+		c.PipeProcs = []ProcSpec{first}
+		for d := range c.Dests {
+			c.Dests[d].Procs = []ProcSpec{second}
+		}
+	}
+	for i := 0; i < 16; i++ {
+		c.Sched = append(c.Sched, r.Intn(1<<16))
+	}
+	return c
+}
+
+// MaskCases enumerates, for batch sizes 5..8, EVERY filter mask of one batch through the
+// chain filter -> transform (v2, one source, one destination): 480 cases.
+func MaskCases() []Case {
+	var out []Case
+	for n := 5; n <= 8; n++ {
+		for mask := 0; mask < 1<<n; mask++ {
+			var filt [][2]int
+			for i := 0; i < n; i++ {
+				if mask>>i&1 == 1 {
+					filt = append(filt, [2]int{0, i})
+				}
+			}
+			out = append(out, Case{
+				Engine:     "v2",
+				Sources:    []SrcSpec{{Batches: []int{n}, EOF: true}},
+				PipeProcs:  []ProcSpec{{Filter: filt, Workers: 1}, {Transform: true, Workers: 1}},
+				Dests:      make([]DstSpec, 1),
+				Sched:      []int{0},
+				GoMaxProcs: 4,
+			})
+		}
+	}
+	return out
 }
 
 // Run dispatches on the engine.
